@@ -728,6 +728,16 @@ class NetworkGraph(AbstractBaseIR):
         source_vars, args = {}, {}
         eqs, in_vars = [], []
         input_names = {}
+
+        # names generated for this in-edge operator must differ from the target variable's name and from one another
+        # (a user variable may itself be called `weight`, `x_in0`, ...): append `_e` until the name is free
+        used_names = {tvar}
+
+        def free_name(name):
+            while name in used_names:
+                name += '_e'
+            used_names.add(name)
+            return name
         for i, (weight, sidx, tidx, (snode, sop, svar), edge_ir, edge_var_map) in \
                 enumerate(zip(weights, source_indices, target_indices, sources, edge_irs, edge_var_maps)):
 
@@ -748,6 +758,7 @@ class NetworkGraph(AbstractBaseIR):
                         for u in range(tsize):
                             if u not in covered:
                                 in_value[u] = defaults[u]
+                t_str = free_name(t_str)
                 args[t_str] = {'value': in_value, 'dtype': 'float', 'vtype': 'variable',
                                'shape': in_shape}
             else:
@@ -756,6 +767,10 @@ class NetworkGraph(AbstractBaseIR):
                 s_str = svar
                 sidx_str = 'source_idx'
                 tidx_str = 'target_idx'
+
+            if (snode, sop, svar) not in input_names:
+                s_str = free_name(s_str)
+            w_str, sidx_str, tidx_str = free_name(w_str), free_name(sidx_str), free_name(tidx_str)
 
             # one input name per variable: a variable that is read twice by this in-edge operator (two connections
             # from the same source variable, or a source variable that is also a post-synaptic variable) keeps the
